@@ -91,6 +91,7 @@ Lemma table_defclass : forall w n supers slots ro co, Inv w -> g_defclass w n su
   forall m, table (defclass w n supers slots ro co) m = tupd (table w) n supers m.
 Proof.
   intros w n supers slots ro co HI G m. destruct (defclass_inv w n supers slots ro co HI G) as [_ E].
+  change (table (defclass w n supers slots ro co) m) with (table (defclass_merged w n supers slots ro co) m).
   rewrite (ext_table _ _ E). unfold tupd. destruct (Nat.eqb m n) eqn:Emn.
   - apply Nat.eqb_eq in Emn. subst m. unfold table. rewrite (reg_wr_same w n supers slots).
     destruct (defclass_reg_shape w n supers slots) as [_ [_ [newc [Hh [_ [N2 _]]]]]].
